@@ -192,6 +192,20 @@ def case_agg_spec(ctx, inp):
 ORDER_OPS = ("shift", "ffill", "bfill", "apply_first")
 
 
+def _exotic(inp):
+    """key configurations in which dask's groupby has many separately recorded defects"""
+    if inp.get("keykind") == "cat" and inp.get("observed") is False:
+        return "categorical-key:observed=False"
+    if inp.get("keykind") == "nakey" and 0 in inp["c"]:
+        return "NaN-key:dropna=%s" % inp.get("dropna")
+    return None
+
+
+def _auto_sig(inp, op, symptom):
+    ex = _exotic(inp)
+    return f"groupby:{op}:{ex}:{symptom}" if ex else None
+
+
 def _run_misc(d, df, op, inp, kw, gkw, method=None):
     """(dask result, pandas result, compare-sorted?) for one operation"""
     gb, pgb = d.groupby("c", **gkw), df.groupby("c", **gkw)
@@ -268,7 +282,14 @@ def case_misc(ctx, inp):
             sig = "groupby:cov|corr:empty-partition:ValueError-duplicate-labels"
         elif op == "value_counts" and empty and isinstance(e, AttributeError) and "levels" in str(e):
             sig = "groupby:value_counts:empty-partition:AttributeError-levels"
-        ctx.fail(f"groupby {op} raised: " + U.exc_name(e), sig=sig, observed=U.exc_name(e))
+        elif op in ("cov", "corr") and inp.get("keykind") == "nakey" and set(inp["c"]) == {0} and isinstance(e, AttributeError) and "levels" in str(e):
+            sig = "groupby:cov|corr:all-keys-NaN:dropna=False:AttributeError-levels"
+        elif op == "transform" and inp.get("keykind") == "cat" and inp.get("observed") is False and isinstance(e, TypeError) and "'str' and 'int'" in str(e):
+            sig = "groupby:transform:categorical-key:observed=False:TypeError-str-int"
+        elif op == "value_counts" and isinstance(e, KeyError) and "dtype mappings" in str(e) and inp.get("split_out") not in (None, 1):
+            sig = "groupby:value_counts:split_out>1:KeyError-dtype-mapping"
+        ctx.fail(f"groupby {op} raised: " + U.exc_name(e), sig=sig or _auto_sig(inp, op, "raises-" + type(e).__name__),
+                 observed=U.exc_name(e))
         return
     if why:
         if op in ("idxmin", "idxmax") and len(inp["cuts"]) > 2:
@@ -278,11 +299,16 @@ def case_misc(ctx, inp):
         if (inp.get("keykind") == "cat" and inp.get("observed") is False and len(inp["cuts"]) > 2
                 and op in ("median", "apply", "apply_first", "transform", "shift", "ffill", "bfill") and len(got) > len(exp)):
             sig = "groupby:shuffle-apply-family:categorical-key:observed=False:every-category-emitted-per-partition"
+        if inp.get("keykind") == "cat" and inp.get("observed") is False and op == "nunique" and len(got) < len(exp):
+            sig = "groupby:nunique:categorical-key:observed=False:unobserved-category-missing"
         nakey = inp.get("keykind") == "nakey" and 0 in inp["c"]
         if nakey and op == "std" and inp.get("dropna") is None and len(got) == len(exp) + 1:
             sig = "groupby:mean|var|std:dropna-not-given:NaN-key-group-kept"
         if nakey and op == "nunique" and inp.get("dropna") is False and len(got) + 1 == len(exp):
             sig = "groupby:nunique:dropna=False:NaN-key-group-dropped"
+        if sig is None:
+            sym = "extra-groups" if len(got) > len(exp) else "missing-groups" if len(got) < len(exp) else "values"
+            sig = _auto_sig(inp, op, sym)
         ctx.fail(f"groupby {op} differs from pandas: {why}", sig=sig, observed=str(got)[:300], expected=str(exp)[:300])
     ctx.branch(f"misc-{op}-{inp.get('keykind', 'int')}" + (f"-{method}" if method else ""))
 
